@@ -1,52 +1,63 @@
 ; Sequence vocabulary over string arrays: sortedS, bagS, indS, totalS, lemma library.
 ; A = (Array Int Str)   B = (Array Str Int)
 (define-fun sortedS ((a (Array Int Str)) (lo Int) (hi Int)) Bool
-  (forall ((i Int) (j Int)) (! (=> (and (<= lo i) (<= i j) (< j hi)) (<= (so (select a i)) (so (select a j)))) :pattern ((select a i) (select a j)))))
+  (forall ((i Int) (j Int)) (! (=> (and (<= lo i) (<= i j) (< j hi)) (<= (so (select a i)) (so (select a j)))) :pattern ((select a i) (select a j)) :qid seq_1)))
 (declare-fun bagS ((Array Int Str) Int Int) (Array Str Int))
 (define-fun K0S () (Array Str Int) ((as const (Array Str Int)) 0))
 ; B0 / B1: definition by unfolding the last element
-(assert (forall ((a (Array Int Str)) (lo Int) (hi Int)) (! (=> (<= hi lo) (= (bagS a lo hi) K0S)) :pattern ((bagS a lo hi)))))
+(assert (forall ((a (Array Int Str)) (lo Int) (hi Int)) (! (=> (<= hi lo) (= (bagS a lo hi) K0S)) :pattern ((bagS a lo hi)) :qid seq_2)))
 ; B1 is only instantiated between bag terms that already exist (no matching loop)
-(assert (forall ((a (Array Int Str)) (lo Int) (hi Int) (h1 Int)) (! (=> (and (<= lo h1) (= hi (+ h1 1))) (= (bagS a lo hi) (store (bagS a lo h1) (select a h1) (+ 1 (select (bagS a lo h1) (select a h1)))))) :pattern ((bagS a lo hi) (bagS a lo h1)))))
+(assert (forall ((a (Array Int Str)) (lo Int) (hi Int) (h1 Int)) (! (=> (and (<= lo h1) (= hi (+ h1 1))) (= (bagS a lo hi) (store (bagS a lo h1) (select a h1) (+ 1 (select (bagS a lo h1) (select a h1)))))) :pattern ((bagS a lo hi) (bagS a lo h1)) :qid seq_3)))
 ; APPEND: writing the last position of the range
-(assert (forall ((a (Array Int Str)) (lo Int) (hi Int) (i Int) (v Str)) (! (=> (and (<= lo i) (= hi (+ i 1))) (= (bagS (store a i v) lo hi) (store (bagS a lo i) v (+ 1 (select (bagS a lo i) v))))) :pattern ((bagS (store a i v) lo hi)))))
+(assert (forall ((a (Array Int Str)) (lo Int) (hi Int) (i Int) (v Str)) (! (=> (and (<= lo i) (= hi (+ i 1))) (= (bagS (store a i v) lo hi) (store (bagS a lo i) v (+ 1 (select (bagS a lo i) v))))) :pattern ((bagS (store a i v) lo hi)) :qid seq_4)))
 ; non-negativity
-(assert (forall ((a (Array Int Str)) (lo Int) (hi Int) (x Str)) (! (>= (select (bagS a lo hi) x) 0) :pattern ((select (bagS a lo hi) x)))))
+(assert (forall ((a (Array Int Str)) (lo Int) (hi Int) (x Str)) (! (>= (select (bagS a lo hi) x) 0) :pattern ((select (bagS a lo hi) x)) :qid seq_5)))
 ; FR: a write outside [lo,hi) does not matter
-(assert (forall ((a (Array Int Str)) (lo Int) (hi Int) (i Int) (v Str)) (! (=> (or (< i lo) (>= i hi)) (= (bagS (store a i v) lo hi) (bagS a lo hi))) :pattern ((bagS (store a i v) lo hi)))))
+(assert (forall ((a (Array Int Str)) (lo Int) (hi Int) (i Int) (v Str)) (! (=> (or (< i lo) (>= i hi)) (= (bagS (store a i v) lo hi) (bagS a lo hi))) :pattern ((bagS (store a i v) lo hi)) :qid seq_6)))
 ; UPD: a write inside [lo,hi)
 (assert (forall ((a (Array Int Str)) (lo Int) (hi Int) (i Int) (v Str)) (! (=> (and (<= lo i) (< i hi))
    (= (bagS (store a i v) lo hi)
       (store (store (bagS a lo hi) (select a i) (- (select (bagS a lo hi) (select a i)) 1)) v
              (+ 1 (select (store (bagS a lo hi) (select a i) (- (select (bagS a lo hi) (select a i)) 1)) v)))))
-   :pattern ((bagS (store a i v) lo hi)))))
+   :pattern ((bagS (store a i v) lo hi)) :qid seq_7)))
 ; EXT (skolemised): arrays that agree on [lo,hi) have the same bag
 (declare-fun bdiffS ((Array Int Str) (Array Int Str) Int Int) Int)
 (assert (forall ((a (Array Int Str)) (b (Array Int Str)) (lo Int) (hi Int)) (! (or (= (bagS a lo hi) (bagS b lo hi))
    (and (<= lo (bdiffS a b lo hi)) (< (bdiffS a b lo hi) hi) (not (= (select a (bdiffS a b lo hi)) (select b (bdiffS a b lo hi))))))
-   :pattern ((bagS a lo hi) (bagS b lo hi)))))
-; L1: an element of the range occurs at least once
-(assert (forall ((a (Array Int Str)) (lo Int) (hi Int) (i Int)) (! (=> (and (<= lo i) (< i hi)) (>= (select (bagS a lo hi) (select a i)) 1)) :pattern ((bagS a lo hi) (select a i)))))
-; L2: a value with positive multiplicity has a witness position
-(declare-fun bwitS ((Array Int Str) Int Int Str) Int)
-(assert (forall ((a (Array Int Str)) (lo Int) (hi Int) (x Str)) (! (=> (>= (select (bagS a lo hi) x) 1)
-   (and (<= lo (bwitS a lo hi x)) (< (bwitS a lo hi x) hi) (= (select a (bwitS a lo hi x)) x)))
-   :pattern ((select (bagS a lo hi) x)))))
-; L3: two positions with the same value give multiplicity >= 2
-(assert (forall ((a (Array Int Str)) (lo Int) (hi Int) (i Int) (j Int)) (! (=> (and (<= lo i) (< i j) (< j hi) (= (select a i) (select a j))) (>= (select (bagS a lo hi) (select a i)) 2)) :pattern ((bagS a lo hi) (select a i) (select a j)))))
-; SPLICE (skolemised): b is a with position p removed
-(declare-fun bspS ((Array Int Str) (Array Int Str) Int Int Int) Int)
-(assert (forall ((a (Array Int Str)) (b (Array Int Str)) (lo Int) (hi Int) (h1 Int) (p Int)) (! (=> (and (<= lo p) (< p hi) (= h1 (- hi 1)))
-   (or (= (bagS b lo h1) (store (bagS a lo hi) (select a p) (- (select (bagS a lo hi) (select a p)) 1)))
-       (and (<= lo (bspS a b lo hi p)) (< (bspS a b lo hi p) h1)
-            (not (= (select b (bspS a b lo hi p)) (ite (< (bspS a b lo hi p) p) (select a (bspS a b lo hi p)) (select a (+ (bspS a b lo hi p) 1))))))))
-   :pattern ((bagS b lo h1) (bagS a lo hi) (select a p)))))
+   :pattern ((bagS a lo hi) (bagS b lo hi)) :qid seq_8)))
+; (L1-L3 - witness lemmas - are NOT part of the library: L1 and L2 together form a matching loop.
+;  Their only use, "binary search finds an element that occurs", is stated as lemma searchHit and
+;  proved separately in /verif/selftest/lemmas/searchHit.smt2.)
+; (SPLICE - "b is a with position p removed: bag(b,lo,hi-1) = bag(a,lo,hi) minus a[p]" - is not a general
+;  axiom here: as a pattern-driven lemma it forms a matching loop. The encoder states its instance at every
+;  copy(s[p:], s[p+1:]) site; the lemma itself is validated in /verif/selftest/lemmas.)
 ; total number of elements
 (declare-fun totalS ((Array Str Int)) Int)
 (assert (= (totalS K0S) 0))
-(assert (forall ((b (Array Str Int)) (x Str) (v Int)) (! (= (totalS (store b x v)) (+ (- (totalS b) (select b x)) v)) :pattern ((totalS (store b x v))))))
-(assert (forall ((a (Array Int Str)) (lo Int) (hi Int)) (! (= (totalS (bagS a lo hi)) (ite (<= lo hi) (- hi lo) 0)) :pattern ((totalS (bagS a lo hi))))))
+(assert (forall ((b (Array Str Int)) (x Str) (v Int)) (! (= (totalS (store b x v)) (+ (- (totalS b) (select b x)) v)) :pattern ((totalS (store b x v))) :qid seq_10)))
+(assert (forall ((a (Array Int Str)) (lo Int) (hi Int)) (! (= (totalS (bagS a lo hi)) (ite (<= lo hi) (- hi lo) 0)) :pattern ((totalS (bagS a lo hi))) :qid seq_11)))
 ; indicator of a key set
 (declare-fun indS ((Array Str Bool)) (Array Str Int))
-(assert (forall ((s (Array Str Bool)) (x Str)) (! (= (select (indS s) x) (ite (select s x) 1 0)) :pattern ((select (indS s) x)))))
-(assert (forall ((s (Array Str Bool))) (! (= (totalS (indS s)) (card$Str s)) :pattern ((totalS (indS s))))))
+(assert (forall ((s (Array Str Bool)) (x Str)) (! (= (select (indS s) x) (ite (select s x) 1 0)) :pattern ((select (indS s) x)) :qid seq_12)))
+(assert (forall ((s (Array Str Bool))) (! (= (totalS (indS s)) (card$Str s)) :pattern ((totalS (indS s))) :qid seq_13)))
+; ---- multiset of the values of a string->string map (dom d, values v) -------------------------
+(declare-fun bagvS ((Array Str Bool) (Array Str Str)) (Array Str Int))
+(assert (forall ((v (Array Str Str))) (! (= (bagvS ((as const (Array Str Bool)) false) v) K0S) :pattern ((bagvS ((as const (Array Str Bool)) false) v)) :qid seq_14)))
+(assert (forall ((d (Array Str Bool)) (v (Array Str Str)) (x Str)) (! (>= (select (bagvS d v) x) 0) :pattern ((select (bagvS d v) x)) :qid seq_15)))
+; insert / overwrite of key k with value x
+(assert (forall ((d (Array Str Bool)) (v (Array Str Str)) (k Str) (x Str)) (! (= (bagvS (store d k true) (store v k x))
+   (store (ite (select d k) (store (bagvS d v) (select v k) (- (select (bagvS d v) (select v k)) 1)) (bagvS d v)) x
+          (+ 1 (select (ite (select d k) (store (bagvS d v) (select v k) (- (select (bagvS d v) (select v k)) 1)) (bagvS d v)) x))))
+   :pattern ((bagvS (store d k true) (store v k x))) :qid seq_16)))
+; removal of key k
+(assert (forall ((d (Array Str Bool)) (v (Array Str Str)) (k Str)) (! (= (bagvS (store d k false) v)
+   (ite (select d k) (store (bagvS d v) (select v k) (- (select (bagvS d v) (select v k)) 1)) (bagvS d v)))
+   :pattern ((bagvS (store d k false) v)) :qid seq_17)))
+; a present key contributes its value
+(assert (forall ((d (Array Str Bool)) (v (Array Str Str)) (k Str)) (! (=> (select d k) (>= (select (bagvS d v) (select v k)) 1)) :pattern ((bagvS d v) (select v k)) :qid seq_18)))
+; values outside the domain do not matter (skolemised)
+(declare-fun bvdiffS ((Array Str Bool) (Array Str Str) (Array Str Str)) Str)
+(assert (forall ((d (Array Str Bool)) (v1 (Array Str Str)) (v2 (Array Str Str))) (! (or (= (bagvS d v1) (bagvS d v2))
+   (and (select d (bvdiffS d v1 v2)) (not (= (select v1 (bvdiffS d v1 v2)) (select v2 (bvdiffS d v1 v2))))))
+   :pattern ((bagvS d v1) (bagvS d v2)) :qid seq_19)))
+(assert (forall ((d (Array Str Bool)) (v (Array Str Str))) (! (= (totalS (bagvS d v)) (card$Str d)) :pattern ((totalS (bagvS d v))) :qid seq_20)))
